@@ -74,25 +74,40 @@ def gen_lattice_terms(rng, cats, nums):
     return terms
 
 
-def _rank_oracle(ctx: Ctx, rng):
+def _rank_oracle(ctx: Ctx, rng, odd=False):
     import numpy as np
     from formulaic import model_matrix
-    ncat = rng.randint(0, 3)
+    ncat = rng.randint(0, 3) if not odd else rng.randint(1, 2)
     nnum = rng.randint(0, 2) if ncat else rng.randint(1, 2)
-    cats = {c: M.CAT[c][: rng.randint(1, 3)] for c in sorted(rng.sample(list(M.CAT), ncat))}      # any of the factors, incl. the one whose first level is ''
+    if odd:
+        nnum = max(nnum, 1)
+    cats = {c: M.CAT[c][: rng.randint(1, 3) if not odd else rng.randint(2, 3)] for c in sorted(rng.sample(list(M.CAT), ncat))}      # any of the factors, incl. the one whose first level is ''
     nums = M.NUM[:nnum]
     terms = gen_lattice_terms(rng, cats, nums)
     contrast = rng.choice([None, None, "treatment", "sum", "helmert", "diff", "poly", "SAS"])
     intercept = rng.random() < 0.7
     cluster = rng.random() < 0.3
 
+    # some of the variables get names that resemble what the materializer writes itself: another factor's name followed by '-' (the mark
+    # of a reduced factor in a scoped term), a level label, an interaction label, the intercept's name
+    allv = list(cats) + list(nums)
+    rename = {}
+    if (odd or rng.random() < 0.3) and len(allv) >= 2:
+        for x in rng.sample(allv, rng.randint(1, len(allv))):
+            other = rng.choice([v for v in allv if v != x and v not in rename] or [v for v in allv if v != x])
+            new = rng.choice([f"{other}-"] * (6 if odd else 1) + [f"{other}-", f"{other}[T.{(cats.get(other) or ['k'])[-1]}]", f"{other}:{x}", f"{other}+", "Intercept", f"{other} ", f"-{other}"])
+            if new not in rename.values() and new not in allv:
+                rename[x] = new
+
     def fac(x):
+        nm = f"`{rename[x]}`" if x in rename else x
         if x in cats and contrast:
-            return f"C({x}, contr.{contrast})"
-        return x
+            return f"C({nm}, contr.{contrast})"
+        return nm
     rhs = " + ".join(":".join(fac(x) for x in t) for t in terms)
     formula = ("1 + " if intercept else "0 + ") + rhs
-    df = crossed_frame(rng, cats, nums)
+    df = crossed_frame(rng, cats, nums).rename(columns=rename)
+    ctx.count("rank-oracle", "odd-names=" + ("yes" if rename else "no"))
     rp = {"kind": "rank", "formula": formula, "levels": cats, "numeric": nums, "cluster_by": cluster, "rows": len(df)}
     ctx.oracle_runs += 1
     kw = {"cluster_by": "numerical_factors"} if cluster else {}
@@ -150,6 +165,8 @@ def run(ctx: Ctx):
     # (2) exact-rank oracle on the implementation
     for _ in range(ctx.n(250, 4000)):
         _rank_oracle(ctx, rng)
+    for _ in range(ctx.n(120, 1500)):
+        _rank_oracle(ctx, rng, odd=True)
     ctx.samples.append({"rank_oracle": "R = reduced, U = unreduced build on a fully crossed frame; require rank(R)=ncols(R)=rank(U)=rank([R|U])"})
 
 
